@@ -68,7 +68,8 @@ let spec input obs_s =
       let rec go acc n i = if n > 100000 then acc else match Hashtbl.find_opt u i with
         | Some (sr : Store.src) -> go (i :: acc) (n + 1) (int_of_n sr.Store.s_prev) | None -> i :: acc in
       go [] 0 tip in
-    Stdlib.List.iter (fun step -> Stdlib.List.iter (fun (e : obs_event) ->
+    let last_contain = ref (-1) in       (* index of the last command during which a forbidden / contradicting header was delivered *)
+    Stdlib.List.iteri (fun step_idx step -> let before = !n_forb + !n_contra in Stdlib.List.iter (fun (e : obs_event) ->
         let p = e.peer in
         let gs = g_effs e.effs in
         (* R3 *)
@@ -194,22 +195,28 @@ let spec input obs_s =
         Stdlib.List.iter (fun eff -> if Stdlib.String.length eff > 1 && eff.[0] = 'X' then Hashtbl.replace dropped (int_of_string (after 1 eff)) ()) e.effs;
         if Stdlib.List.mem "P" e.effs then fail "panic" e.label;
         Hashtbl.replace peer_state p e.state;
-        prev_state := e.state) step) o.steps;
+        prev_state := e.state) step;
+        if !n_forb + !n_contra > before then last_contain := step_idx) o.steps;
     (* ---- last clause of C07: after either event the service still converges on an honest peer's chain.
-       Evaluated for the default engine (the experimental one has no second peer to turn to by design) on scripts that end with
+       Evaluated for the default engine, and for the experimental one with respect to honest peers whose session starts
+       after the last containment event (it has no second peer to turn to by design), on scripts that end with
        a run to quiescence, when some sender was dropped for a forbidden or checkpoint-contradicting header and an honest peer
        (its chain holds no forbidden and no checkpoint-contradicting header) is connected and neither closed nor stalled by the
        script: every header of the honest peers' best chain is stored and the tip carries at least that work
        (SyncSpec.spec_converged); the statement's own caveat (an ingested reply without any longest-chain header ends the
        conversation) exempts, as in C06 ---- *)
     let ends_with_run = (match Stdlib.List.rev sc.cmds with c :: _ -> c.[0] = 'R' | [] -> false) in
-    if !verdict = "OK" && (not is_x) && ends_with_run && (!n_forb > 0 || !n_contra > 0) then begin
+    if !verdict = "OK" && ends_with_run && (!n_forb > 0 || !n_contra > 0) then begin
       let rec take n l = if n <= 0 then [] else match l with [] -> [] | x :: r -> x :: take (n - 1) r in
       let rec drop n l = if n <= 0 then l else match l with [] -> [] | _ :: r -> drop (n - 1) r in
       let st = Stdlib.List.map (fun n -> (n.np, (ref n.nchain, ref n.nreserve, ref false, ref false))) sc.nodes in
-      Stdlib.List.iter (fun c ->
+      Stdlib.List.iteri (fun ci c ->
           match parse_cmd c with
-          | SyncSys.CConnect q -> (try let (_, _, conn, _) = Stdlib.List.assoc (int_of_n q) st in conn := true with Not_found -> ())
+          | SyncSys.CConnect q ->
+            (* the experimental engine never turns to another connected peer by design: only a session that STARTS after the
+               last containment event is expected to bring the service onto the honest chain *)
+            if (not is_x) || ci > !last_contain then
+              (try let (_, _, conn, _) = Stdlib.List.assoc (int_of_n q) st in conn := true with Not_found -> ())
           | SyncSys.CClose q | SyncSys.CStall q -> (try let (_, _, _, gone) = Stdlib.List.assoc (int_of_n q) st in gone := true with Not_found -> ())
           | SyncSys.CAnnounce (q, k, _) ->
             (try let (ch, rs, _, _) = Stdlib.List.assoc (int_of_n q) st in
